@@ -59,12 +59,13 @@ def programs(draw, tier):
     )
     ops = [list(o) for o in draw(st.lists(op, max_size=20))]
     raise_at = draw(st.one_of(st.none(), st.none(), st.integers(0, 20)))
-    return {"items": items, "kind": draw(st.sampled_from(["agen", "aclass", "aplain", "send", "list", "iter", "seq", "loan"])),
+    return {"items": items, "kind": draw(st.sampled_from(["agen", "aclass", "aplain", "send", "list", "iter", "seq", "loan", "areiter", "aproxy"])),
             "susp": draw(st.integers(0, 1)), "ops": ops, "raise_at": raise_at,
             # what leaves the block at raise_at: an ordinary error, or what a generator / task shutdown delivers
             # the underlying iterator's own aclose() fails (once) and leaves it open
             "cfault": draw(st.sampled_from([False, False, False, True])),
             "eqsrc": draw(st.sampled_from([False, True])),
+            "falsy": draw(st.sampled_from([False, False, True])),
             "exit_exc": draw(st.sampled_from(["Fault", "Fault", "GeneratorExit", "KeyboardInterrupt",
                                               "StopAsyncIteration", "CancelledError"])),
             "mode": draw(st.sampled_from(["hooks", "bare"]))}
@@ -81,6 +82,8 @@ def run_program(case, cancel_at=None):
     spec = {"fl": kind if kind not in ("send", "loan") else "aclass", "susp": case["susp"]}
     if case.get("eqsrc"):
         spec["eqsrc"] = True
+    if case.get("falsy"):
+        spec["falsy"] = True  # a class-based source that is falsy (a feed whose len() is its backlog)
     other = make_source(ctx, "o", mats([["I", 9, 900], ["I", 9, 901], ["I", 9, 902], ["I", 9, 903]]),
                         {"fl": "aclass", "eqsrc": bool(case.get("eqsrc"))}, "a")
     cfault = bool(case.get("cfault")) and kind in ("aclass", "aplain", "send")
@@ -279,6 +282,10 @@ def run_program(case, cancel_at=None):
                 raise Violation("C08/underlying-not-closed-at-exit", f"kind={kind} outcome={outcome[0]}", case=vcase)
             if src.close_calls > 1 and kind != "agen":
                 raise Violation("C08/underlying-closed-more-than-once", f"calls={src.close_calls}", case=vcase)
+        if kind == "areiter" and src.opens != 1:
+            # "the underlying iterator is closed exactly once": one close covers one iterator - a scope that asks its
+            # iterable for an iterator twice has opened something nobody closes
+            raise Violation("C08/iterable-asked-for-an-iterator-more-than-once", f"opens={src.opens}", case=vcase)
         if kind == "loan":
             if src.close_calls:
                 raise Violation("C08/scope-closed-the-iterator-behind-a-loan", f"calls={src.close_calls}", case=vcase)
